@@ -3,8 +3,10 @@ package main
 // a MessageStore wrapper that reports every mutation to a callback, so the session properties can see
 // resets, saves and counter changes in their order relative to callbacks and wire writes.
 import (
-	"strconv"
+	"bytes"
 	"fmt"
+	"sort"
+	"strconv"
 	"strings"
 	"time"
 
@@ -15,6 +17,7 @@ type logStoreFactory struct {
 	inner quickfix.MessageStoreFactory
 	note  func(string)
 	made  func(quickfix.MessageStore) // told about every store created (the harness may set its creation time)
+	wrapped func(*logStore)           // told about the logging wrapper of every store created
 }
 
 func (f logStoreFactory) Create(id quickfix.SessionID) (quickfix.MessageStore, error) {
@@ -25,13 +28,44 @@ func (f logStoreFactory) Create(id quickfix.SessionID) (quickfix.MessageStore, e
 	if f.made != nil {
 		f.made(st)
 	}
-	return &logStore{MessageStore: st, note: f.note}, nil
+	ls := &logStore{MessageStore: st, note: f.note}
+	if f.wrapped != nil {
+		f.wrapped(ls)
+	}
+	return ls, nil
 }
 
 type logStore struct {
 	quickfix.MessageStore
 	note func(string)
 	mute bool
+	// the harness's own copy of every message handed to the store in this epoch: what the store returns for a number must
+	// stay what was saved under it (`changed`)
+	saved map[int][]byte
+}
+
+func (s *logStore) keep(seq int, msg []byte) {
+	if s.saved == nil {
+		s.saved = map[int][]byte{}
+	}
+	s.saved[seq] = append([]byte(nil), msg...)
+}
+
+// changed: the numbers whose stored bytes are no longer the bytes that were saved under them (ascending)
+func (s *logStore) changed() []int {
+	var out []int
+	for n, want := range s.saved {
+		got, err := s.MessageStore.GetMessages(n, n)
+		if err != nil || len(got) != 1 || !bytes.Equal(got[0], want) {
+			out = append(out, n)
+			s.saved[n] = nil
+			if err == nil && len(got) == 1 {
+				s.saved[n] = append([]byte(nil), got[0]...) // reported once
+			}
+		}
+	}
+	sort.Ints(out)
+	return out
 }
 
 func (s *logStore) say(x string) {
@@ -87,10 +121,12 @@ func (s *logStore) SetNextTargetMsgSeqNum(n int) error {
 }
 func (s *logStore) SaveMessage(seq int, msg []byte) error {
 	s.say(describeSaved(seq, msg))
+	s.keep(seq, msg)
 	return s.MessageStore.SaveMessage(seq, msg)
 }
 func (s *logStore) SaveMessageAndIncrNextSenderMsgSeqNum(seq int, msg []byte) error {
 	s.say(describeSaved(seq, msg))
+	s.keep(seq, msg)
 	return s.MessageStore.SaveMessageAndIncrNextSenderMsgSeqNum(seq, msg)
 }
 func (s *logStore) Refresh() error {
@@ -102,6 +138,7 @@ func (s *logStore) Reset() error {
 		delete(savedSendingTime, k)
 	}
 	s.say("reset")
+	s.saved = nil
 	return s.MessageStore.Reset()
 }
 func (s *logStore) SetCreationTime(t time.Time) { s.MessageStore.SetCreationTime(t) }
